@@ -537,4 +537,4 @@ def _obligations():
 
 
 def obligations():
-    return _obligations() + [converters_obligation([("cryomotl.emmotl2relion", {"flip_handedness": K(False), "output_motl_path": K(None)}, {"flip_handedness": False})]), constructors_obligation(['cryomotl.RelionMotl']), labels_obligation("C03"), selectors_obligation("C03"), mutations_obligation("C03"), effects_obligation("C03"), plumbing_obligation("C03"), overrides_obligation("C03"), options_obligation("C03"), handlers_obligation("C03")]
+    return _obligations() + [converters_obligation([("cryomotl.emmotl2relion", {"flip_handedness": K(False), "output_motl_path": K(None)}, {"flip_handedness": False})]), constructors_obligation(['cryomotl.RelionMotl']), labels_obligation("C03"), selectors_obligation("C03"), mutations_obligation("C03"), loopstate_obligation("C03"), effects_obligation("C03"), plumbing_obligation("C03"), overrides_obligation("C03"), options_obligation("C03"), handlers_obligation("C03")]
